@@ -458,7 +458,7 @@ B("C11", "parities-correlations-required", (PAR, """        if data.get("correla
         ]"""), rule="C11-D1")
 B("C11", "imag-part-never-written", (UTL, """        dictionary["real"] = array.real.tolist()
         dictionary["imag"] = array.imag.tolist()""", """        dictionary["real"] = array.real.tolist()"""), rule="C11-D1")
-B("C11", "list-loader-path-only", (UTL, """    if isinstance(file, str):
+B("C11", "list-loader-path-only", (UTL, """    if isinstance(file, (str, os.PathLike)):
         with open(file, "r") as f:
             data = json.load(f)
     else:
@@ -477,7 +477,7 @@ B("C11", "precision-dropped-by-writer", (UTL, """        if type(self.precision)
             data["precision"] = self.precision
 """, ""), rule="C11-D1")
 B("C11", "loader-uses-wrong-class", (PAR, "    return Parities.from_dict(data)", "    return data"), rule="C11-D2")
-T("C11", "twin-loader-ensure-open", (UTL, """    if isinstance(file, str):
+T("C11", "twin-loader-ensure-open", (UTL, """    if isinstance(file, (str, os.PathLike)):
         with open(file, "r") as f:
             data = json.load(f)
     else:
@@ -495,12 +495,12 @@ T("C11", "twin-reader-get-with-guard", (EXV, """        if dictionary.get("corre
 
 # ----------------------------------------------------------------------------- C12
 B("C12", "restore-line-deleted", (WF, "            self._amplitude_vector[idx] = old_val\n\n            raise ValueError", "            raise ValueError"), rule="C12-D2")
-B("C12", "alias-instead-of-snapshot", (WF, """        old_val = self._amplitude_vector[idx]
+B("C12", "alias-instead-of-snapshot", (WF, """        old_val = copy(self._amplitude_vector[idx])
         self._amplitude_vector[idx] = val
 """, """        old_val = self._amplitude_vector
         self._amplitude_vector[idx] = val
 """), rule="C12-D2")
-B("C12", "check-before-write", (WF, """        old_val = self._amplitude_vector[idx]
+B("C12", "check-before-write", (WF, """        old_val = copy(self._amplitude_vector[idx])
         self._amplitude_vector[idx] = val
 
         try:
@@ -551,14 +551,14 @@ B("C12", "numeric-check-inverted", (WF, "            if not np.isclose(probs_of_
 B("C12", "probabilities-not-squared", (WF, "        return np.abs(self.amplitudes) ** 2", "        return np.abs(self.amplitudes)"), rule="C12-D4")
 B("C12", "amplitudes-key-renamed-on-load", (WF, '    wavefunction = Wavefunction(convert_dict_to_array(data["amplitudes"]))', '    wavefunction = Wavefunction(convert_dict_to_array(data["amplitude"]))'), rule="C12-D5")
 B("C12", "normalise-helper-in-getter", (WF, "    def get_probabilities(self) -> np.ndarray:\n        return", "    def get_probabilities(self) -> np.ndarray:\n        self._amplitude_vector /= np.linalg.norm(self._amplitude_vector)\n        return"), rule="C12-D3")
-T("C12", "twin-rename-saved-value", (WF, """        old_val = self._amplitude_vector[idx]
+T("C12", "twin-rename-saved-value", (WF, """        old_val = copy(self._amplitude_vector[idx])
         self._amplitude_vector[idx] = val
 
         try:
             self._check_normalization(self._amplitude_vector)
         except ValueError:
             self._amplitude_vector[idx] = old_val
-""", """        previous = self._amplitude_vector[idx]
+""", """        previous = copy(self._amplitude_vector[idx])
         self._amplitude_vector[idx] = val
 
         try:
@@ -994,7 +994,7 @@ B("C13", "combine-guard-deleted", (ITT, """    if len(all_measurements) != (sum_
 """, ""), rule="C13-D1")
 B("C13", "chunking-restarts-iterator", (ITT, "    it = iter(items)\n    while chunk := tuple(islice(it, batch_size)):\n        yield chunk", "    it = iter(items)\n    while chunk := tuple(islice(iter(items), batch_size)):\n        yield chunk\n        break"), rule="C13-D2")
 B("C13", "expansion-remainder-dropped", (ITT, "        else (multiplicities - 1) * (max_sample_size,) + (n_samples % max_sample_size,)", "        else (multiplicities - 1) * (max_sample_size,)"), rule="C13-D3")
-B("C13", "expansion-floor-multiplicity", (ITT, "    multiplicities = ceil(n_samples / max_sample_size)", "    multiplicities = n_samples // max_sample_size"), rule="C13-D3")
+B("C13", "expansion-floor-multiplicity", (ITT, "    multiplicities = -(-n_samples // max_sample_size)", "    multiplicities = n_samples // max_sample_size"), rule="C13-D3")
 B("C13", "expansion-full-chunks-only", (ITT, "        if n_samples % max_sample_size == 0\n        else (multiplicities - 1) * (max_sample_size,) + (n_samples % max_sample_size,)", "        if n_samples % max_sample_size == 0\n        else multiplicities * (max_sample_size,)"), rule="C13-D3")
 B("C13", "expand-returns-swapped-slots", (ITT, "    return new_circuits, new_n_samples, multiplicities", "    return new_circuits, multiplicities, new_n_samples"), rule="C13-D3")
 B("C13", "expand-repeats-by-sample-count", (ITT, "        for circuit, multi in zip(circuits, multiplicities)", "        for circuit, multi in zip(circuits, n_samples_per_circuit)"), rule="C13-D3")
@@ -1022,7 +1022,7 @@ B("C13", "representing-no-elimination-check", (MEAS, """                samples 
 B("C13", "representing-edits-callers-dict", (MEAS, "        distribution = copy.deepcopy(measurement_outcome_distribution.distribution_dict)", "        distribution = measurement_outcome_distribution.distribution_dict\n        distribution.pop(None, None)"), rule="C13-D")
 T("C13", "twin-assert-as-raise", (UTL, '    assert sum(result) == total, "The scaled list does not sum to the desired total."\n', '    if sum(result) != total:\n        raise AssertionError("The scaled list does not sum to the desired total.")\n'))
 T("C13", "twin-guard-lt-one", (ITT, "    if max_batch_size <= 0:", "    if max_batch_size < 1:"))
-T("C13", "twin-expansion-divmod-free", (ITT, """    multiplicities = ceil(n_samples / max_sample_size)
+T("C13", "twin-expansion-divmod-free", (ITT, """    multiplicities = -(-n_samples // max_sample_size)
     new_n_samples = (
         multiplicities * (max_sample_size,)
         if n_samples % max_sample_size == 0
@@ -1162,7 +1162,7 @@ B("C17", "mmd-basis-vacuous-filter", (MMD, "    all_keys = set(target_keys).unio
 B("C17", "mmd-basis-target-only", (MMD, "    all_keys = set(target_keys).union(measured_keys)", "    all_keys = set(target_keys)"), rule="C17-D3m")
 B("C17", "mmd-kernel-asymmetric", (MMD, "        kernel_matrix = compute_rbf_kernel(basis, basis, sigma)", "        kernel_matrix = compute_rbf_kernel(basis, basis[::-1], sigma)"), rule="C17-D3m")
 T("C17", "twin-mmd-ordered-union", (MMD, "    all_keys = set(target_keys).union(measured_keys)", "    all_keys = list(target_keys) + [key for key in measured_keys if key not in target_keys]"))
-B("C18", "predicate-unwraps-any-modifier", (ORQD, """        return (
+B("C18", "predicate-unwraps-any-modifier", (ORQD, """        return isinstance(operation, GateOperation) and (
             operation.gate.name == "U3"
             or isinstance(operation.gate, ControlledGate)
             and operation.gate.wrapped_gate.name == "U3"
@@ -1173,3 +1173,19 @@ B("C18", "predicate-unguarded-wrapped-gate", (ORQD, """            or isinstance
             and operation.gate.wrapped_gate.name == "U3\""""), rule="C18-D4")
 B("C06", "custom-gate-sequential-substitution", (GAT, "            {symbol: arg for symbol, arg in zip(self.params_ordering, gate_params)},\n            simultaneous=True,\n        )", "            {symbol: arg for symbol, arg in zip(self.params_ordering, gate_params)}\n        )"), rule="C06-D5")
 T("C06", "twin-custom-gate-xreplace", (GAT, "        return self.matrix.subs(\n            {symbol: arg for symbol, arg in zip(self.params_ordering, gate_params)},\n            simultaneous=True,\n        )", "        return self.matrix.xreplace(\n            {symbol: arg for symbol, arg in zip(self.params_ordering, gate_params)}\n        )"))
+
+
+# ----------------------------------------------------------------------------- defects repaired in session 3 (each variant puts one back)
+B("C18", "predicate-crashes-on-non-gate-operations", ("decompositions/_orquestra_decompositions.py", "return isinstance(operation, GateOperation) and (", "return ("), rule="C18-D4")
+B("C05", "definitions-not-collected-through-wrappers", (CIR, "    gate = _innermost_gate(operation.gate)\n", "    gate = operation.gate\n"), (CIR, "_innermost_gate(operation.gate).matrix_factory.gate_definition", "operation.gate.matrix_factory.gate_definition"), (CIR, "    while hasattr(gate, \"wrapped_gate\"):\n        gate = gate.wrapped_gate\n    return gate", "    return gate"), rule="C05-D2")
+B("C06", "expr-arm-sequential-subs", ("circuits/_operations.py", "return parameter.subs(symbols_map, simultaneous=True)", "return parameter.subs(symbols_map)"), rule="C06-D3")
+B("C10", "per-outcome-division", ("measurements/measurements.py", "    return signed_counts.sum().item() / num_measurements", "    return (signed_counts / num_measurements).sum().item()"), rule="C10-D4")
+B("C13", "float-ceil", ("circuits/_itertools.py", "multiplicities = -(-n_samples // max_sample_size)", "multiplicities = math.ceil(n_samples / max_sample_size)"), rule="C13-D3")
+B("C12", "saved-slice-is-a-view", ("wavefunction.py", "old_val = copy(self._amplitude_vector[idx])", "old_val = self._amplitude_vector[idx]"), rule="C12-D2")
+B("C11", "load-list-str-only", ("utils.py", "    if isinstance(file, (str, os.PathLike)):\n        with open(file, \"r\") as f:\n            data = json.load(f)\n    else:\n        data = json.load(file)  # type: ignore\n\n    return data[\"list\"]", "    if isinstance(file, str):\n        with open(file, \"r\") as f:\n            data = json.load(f)\n    else:\n        data = json.load(file)  # type: ignore\n\n    return data[\"list\"]"), rule="C11-D2")
+B("C01", "empty-circuit-has-no-unitary", (CIR, "        if not lifted_matrices:\n            # The empty product: a circuit without operations acts as the identity.\n            return np.eye(2**self.n_qubits)\n\n", ""), rule="C01-D2")
+T("C01", "empty-product-by-initial-value", (CIR, "        if not lifted_matrices:\n            # The empty product: a circuit without operations acts as the identity.\n            return np.eye(2**self.n_qubits)\n\n        return reduce(operator.matmul, lifted_matrices)", "        return reduce(operator.matmul, lifted_matrices, np.eye(2**self.n_qubits))"))
+T("C12", "saved-with-deepcopy", ("wavefunction.py", "old_val = copy(self._amplitude_vector[idx])", "old_val = np.copy(self._amplitude_vector[idx])"))
+T("C06", "expr-arm-xreplace", ("circuits/_operations.py", "return parameter.subs(symbols_map, simultaneous=True)", "return parameter.xreplace(symbols_map)"))
+T("C13", "integer-ceil-other-form", ("circuits/_itertools.py", "multiplicities = -(-n_samples // max_sample_size)", "multiplicities = (n_samples + max_sample_size - 1) // max_sample_size"))
+T("C18", "predicate-guard-as-if", ("decompositions/_orquestra_decompositions.py", "        return isinstance(operation, GateOperation) and (", "        if not isinstance(operation, GateOperation):\n            return False\n        return ("))
